@@ -99,22 +99,40 @@ class IOTap:
             return tap._open(file, mode, *a, **k)
 
         def replace_(src, dst, *a, **k):
-            tap._op("replace", src=os.path.basename(str(src)), dst=os.path.basename(str(dst)))
+            tap._op("replace", src=os.path.basename(str(src)), dst=os.path.basename(str(dst)),
+                    same_dir=os.path.realpath(os.path.dirname(str(src))).startswith(os.path.realpath(os.path.dirname(str(dst)))))
             return tap._replace(src, dst, *a, **k)
 
         def rename_(src, dst, *a, **k):
-            tap._op("rename", src=os.path.basename(str(src)), dst=os.path.basename(str(dst)))
+            tap._op("rename", src=os.path.basename(str(src)), dst=os.path.basename(str(dst)),
+                    same_dir=os.path.realpath(os.path.dirname(str(src))).startswith(os.path.realpath(os.path.dirname(str(dst)))))
             return tap._rename(src, dst, *a, **k)
 
         def fsync_(fd):
             tap._op("fsync", name=os.path.basename(tap.fd_names.get(fd, "?")))
             return tap._fsync(fd)
 
+        def fdopen_(fd, mode="r", *a, **k):
+            # temporary files created with mkstemp / os.open are wrapped too (path from /proc)
+            if any(c in mode for c in "wax+"):
+                try:
+                    p = os.readlink(f"/proc/self/fd/{fd}")
+                except OSError:
+                    p = f"<fd {fd}>"
+                tap._op("open", name=os.path.basename(p), mode=mode, dir=os.path.dirname(p))
+                kk = dict(k)
+                kk["buffering"] = 0
+                return Proxy(tap._fdopen(fd, mode, **kk), p)
+            return tap._fdopen(fd, mode, *a, **k)
+
+        self._fdopen = os.fdopen
+        os.fdopen = fdopen_
         builtins.open, os.replace, os.rename, os.fsync = open_, replace_, rename_, fsync_
         return self
 
     def __exit__(self, *exc):
         builtins.open, os.replace, os.rename, os.fsync = self._open, self._replace, self._rename, self._fsync
+        os.fdopen = self._fdopen
         return False
 
 
@@ -139,24 +157,31 @@ def mem_snapshot(s):
 
 
 def protocol_ok(ops, final):
-    """The IO op sequence of an uncrashed save must be a behaviour of the atomic protocol of Checkpoint.tla:
-    Open(tmp) Write* Flush Fsync Close Rename(tmp -> final), and the final name is never opened for writing."""
-    names = [o for o in ops if o["op"] == "open"]
-    if any(o["name"] == final for o in names):
+    """What the atomic protocol of Checkpoint.tla requires of the observed IO calls of an uncrashed save, stated at the
+    level the property needs (process death, not power loss - fsync is therefore not demanded):
+    the final name is never opened for writing; it changes only by ONE rename/replace whose source lies in the same
+    directory tree as the final name (a rename is atomic only within one filesystem; a temporary file elsewhere makes
+    it a copy that truncates the old checkpoint); everything written to the source is flushed or the file closed
+    BEFORE that rename."""
+    if any(o["op"] == "open" and o["name"] == final for o in ops):
         return "final name opened for writing (in-place protocol)"
-    if len(names) != 1:
-        return f"{len(names)} files opened for writing"
-    tmp = names[0]["name"]
-    seq = [o["op"] for o in ops if o["op"] != "write"]
-    want = ["open", "flush", "fsync", "close", "replace"]
-    alt = ["open", "flush", "fsync", "close", "rename"]
-    if seq != want and seq != alt:
-        return f"IO order {seq} is not open, write*, flush, fsync, close, rename"
-    last = ops[-1]
-    if last.get("src") != tmp or last.get("dst") != final:
-        return f"rename {last} does not move {tmp} onto {final}"
-    if not any(o["op"] == "write" for o in ops):
-        return "nothing written"
+    moves = [i for i, o in enumerate(ops) if o["op"] in ("rename", "replace") and o.get("dst") == final]
+    if len(moves) != 1:
+        return f"{len(moves)} renames onto the final name (expected exactly one)"
+    mv = ops[moves[0]]
+    if not mv.get("same_dir", True):
+        return f"temporary file {mv['src']} is not in the checkpoint's directory: the rename is not atomic across filesystems"
+    src = mv["src"]
+    opened = [i for i, o in enumerate(ops) if o["op"] == "open" and o["name"] == src]
+    if opened:
+        writes = [i for i, o in enumerate(ops) if o["op"] == "write" and o["name"] == src]
+        settle = [i for i, o in enumerate(ops) if o["op"] in ("flush", "close") and o.get("name") == src]
+        if not writes:
+            return "nothing written to the temporary file"
+        if any(i > moves[0] for i in writes):
+            return "data written to the temporary file after it was renamed onto the final name"
+        if not any(max(writes) < i < moves[0] for i in settle):
+            return "temporary file neither flushed nor closed between the last write and the rename"
     return None
 
 
@@ -261,12 +286,17 @@ def resume_part(ck):
     confs = [
         dict(clustering=False), dict(clustering=True), dict(clustering=True, cluster_every=3), dict(evaluation="blobs"),
         dict(pool="perm"), dict(pool=1, sample="rwm"), dict(evaluation="vector", resample="syst"), dict(volume_variation=0.5, clustering=False),
+        dict(sample="rwm", n_dim=3, n_particles=9, clustering=False),            # odd number of normals per sweep: a cached Gaussian in the stream
+        dict(clustering=True, target="narrow", n_particles=32),                  # several cluster labels alive at the checkpoints
     ]
     if ck.tier == "thorough":
         confs += [dict(clustering=True, cluster_every=5, n_max_clusters=2, target="bimodal", n_particles=16), dict(pool=2), dict(reflective=[0], periodic=[1]),
                   dict(support=0.5, ess_ratio=3.0, n_particles=16)]
     jobs = [dict(conf=c, seed=80 + i + 100 * ck.seed, label=f"c08#{i}", n_total=32 if i % 3 else 80, save_every=1 if i % 2 == 0 else 2,
                  max_ckpt=4 if ck.tier == "quick" else None) for i, c in enumerate(confs)]
+    for j in jobs:
+        if j["conf"].get("n_dim") == 3:   # the stream holds a cached Gaussian only at some checkpoints: load every one of them
+            j.update(max_ckpt=None, vary_n_total=False, save_every=1)
     results = [None] * len(jobs)
     with cf.ProcessPoolExecutor(max_workers=sysrun.PROCS, mp_context=mp.get_context("fork")) as ex:
         futs = {ex.submit(sysrun.resume_job, j): i for i, j in enumerate(jobs)}
